@@ -46,7 +46,7 @@ struct W {
 	long next_id = 1;
 	std::string trace;
 	uint64_t h = 0;
-	bool f_replace_shared = false, f_put_idx_occupied = false, f_failed_transfer = false, f_cascade = false, f_ud = false, f_copy = false, f_ptr = false, f_patch = false, f_fill = false;
+	bool f_replace_shared = false, f_put_idx_occupied = false, f_failed_transfer = false, f_cascade = false, f_ud = false, f_copy = false, f_ptr = false, f_patch = false, f_fill = false, f_nullcookie = false;
 	W(Ctx &cx, Choices &cc) : ctx(cx), c(cc) {}
 	~W()
 	{
@@ -397,9 +397,11 @@ struct W {
 			size_t idx = c.pickn(len), cnt = 1 + c.pickn(std::min<size_t>(3, len - idx));
 			if (c.coin(10))
 				cnt = len + 5; // must fail
+			else if (c.coin(6))
+				cnt = SIZE_MAX - (size_t)c.pickn(idx + 2); // idx + count wraps: must fail, nothing released
 			int r = json_object_array_del_idx(parent, idx, cnt);
 			log("array_del_idx #" + str(pid) + " " + str(idx) + "," + str(cnt) + " -> " + str(r));
-			if ((r == 0) != (idx + cnt <= len))
+			if ((r == 0) != (cnt <= len - idx))
 				ctx.fail("retval", "del_idx(" + str(idx) + "," + str(cnt) + ") on length " + str(len) + " returned " + str(r));
 			settle("array_del_idx");
 			return;
@@ -479,6 +481,35 @@ struct W {
 		settle("set_userdata", id, old->gen);
 	}
 	static int json_object_userdata_to_json_string_stub(json_object *, printbuf *pb, int, int) { return printbuf_memappend(pb, "0", 1); }
+	// A delete callback registered with a NULL cookie is still a callback: it runs exactly once, when it is replaced
+	// or when the node dies (json_object.h documents no exception for NULL user data).
+	static int g_null_a, g_null_b;
+	static void null_cb_a(json_object *, void *ud) { g_null_a += ud == nullptr ? 1 : 100; }
+	static void null_cb_b(json_object *, void *ud) { g_null_b += ud == nullptr ? 1 : 100; }
+	void op_null_cookie()
+	{
+		g_null_a = g_null_b = 0;
+		json_object *n = c.coin(50) ? json_object_new_int(5) : json_object_new_array();
+		if (c.coin(50))
+			json_object_set_userdata(n, nullptr, null_cb_a);
+		else
+			json_object_set_serializer(n, c.coin(50) ? nullptr : json_object_userdata_to_json_string_stub, nullptr, null_cb_a);
+		int expect_b = 0;
+		switch (c.pickn(4))
+		{
+		case 0: json_object_set_userdata(n, nullptr, null_cb_b); expect_b = 1; break;
+		case 1: json_object_set_serializer(n, nullptr, nullptr, nullptr); break; // the documented reset form
+		case 2: json_object_set_serializer(n, json_object_userdata_to_json_string_stub, nullptr, null_cb_b); expect_b = 1; break;
+		default: break; // no replacement: the callback runs when the node dies
+		}
+		int a_before_put = g_null_a;
+		json_object_put(n);
+		log("null-cookie callbacks");
+		if (g_null_a != 1 || g_null_b != expect_b)
+			ctx.fail("null-cookie-callback", "delete callbacks registered with a NULL cookie: first ran " + str(g_null_a) + "x (" + str(a_before_put) + "x before the node died), second " +
+			                                     str(g_null_b) + "x, expected 1 and " + str(expect_b));
+		f_nullcookie = true;
+	}
 
 	// deep copy with a tracking shallow-copy callback
 	static W *self;
@@ -719,6 +750,8 @@ struct W {
 	}
 };
 W *W::self = nullptr;
+int W::g_null_a = 0;
+int W::g_null_b = 0;
 } // namespace
 
 void run_case(Choices &c, Ctx &ctx)
@@ -734,7 +767,7 @@ void run_case(Choices &c, Ctx &ctx)
 		for (size_t i = 0; i < nops; i++)
 		{
 			SpanGuard g(c);
-			switch (c.pick({12, 5, 7, 16, 6, 18, 4, 5, 6, 5, 2}))
+			switch (c.pick({12, 5, 7, 16, 6, 18, 4, 5, 6, 5, 2, 1}))
 			{
 			case 0: w.create(); break;
 			case 1: w.op_get(); break;
@@ -746,6 +779,7 @@ void run_case(Choices &c, Ctx &ctx)
 			case 7: w.op_deep_copy(); break;
 			case 8: w.op_pointer_set(); break;
 			case 10: w.op_object_fill(); break;
+			case 11: w.op_null_cookie(); break;
 			default: w.op_patch(); break;
 			}
 		}
@@ -760,6 +794,8 @@ void run_case(Choices &c, Ctx &ctx)
 			ctx.label("cascade");
 		if (w.f_fill)
 			ctx.label("object_resized_with_constant_and_duplicated_keys");
+		if (w.f_nullcookie)
+			ctx.label("callback_with_null_cookie");
 		if (w.f_ud)
 			ctx.label("userdata_replaced");
 		if (w.f_copy)
